@@ -161,3 +161,77 @@ PROPS["C10"] = dict(
                  "remove_move's boolean result and the order of yielded moves are not judged; on a legals_masked(M0) "
                  "iterator only sub-masks of M0 are issued"],
 )
+
+HOOK_ASSUMPTION = ("which deepening passes completed is read from the verif-hooks event log of chess-engine "
+                   "(PassStart / Stage / PassCommit), compiled in only for the harness")
+
+PROPS["C11"] = dict(
+    jobs=lambda ctx: core_jobs("C11", ctx),
+    replay=core_replay("C11"),
+    rule=("each evaluation = one Engine::search run on one position with a counting Timeout that first reports expiry "
+          "at its k-th poll (monotone afterwards): the run must not panic, must return None or a move in the model's "
+          "legal set, Some when legal moves exist and PassCommit{0} was observed, None when no legal move exists, and "
+          "must return within (deepest pass + 48) polls after expiry; per position k is swept over every value in "
+          "[0, T_2+2] when the second pass commits within 3000 polls, else over 0..64, +-2 around every commit and root "
+          "stage boundary learnt from a long run, and seeded values; positions = corpus, seeded random placements of 7 "
+          "themes with short walks, terminal and clock>=99 positions with budgets far beyond 65536 polls; sub-strata "
+          "with a non-empty ThreeFold history and positional evaluation; distinct_nontrivial = distinct positions "
+          "searched (each with its whole k sweep)"),
+    floor=dict(any={"evaluations": 20000, "k-sweep-exhaustive-to-T2": 20, "terminal-position": 2,
+                    "long-run-on-trivial-passes": 5, "non-empty-threefold-history": 10,
+                    "expiry-phase:pass0:captures:in-recursion": 50, "expiry-phase:pass0:quiets:root-level": 50,
+                    "expiry-phase:pass1:prev-best:in-recursion": 50, "expiry-phase:pass2:quiets:in-recursion": 50,
+                    "passes-completed:0": 500, "passes-completed:3": 50}),
+    watchdog=dict(quick=1200, thorough=10800),
+    assumptions=[MODEL_ASSUMPTION, CHK_ASSUMPTION, HOOK_ASSUMPTION,
+                 "the wall-clock DurationTimeout itself is replaced by the logical counting timeout"],
+)
+
+PROPS["C12"] = dict(
+    jobs=lambda ctx: core_jobs("C12", ctx),
+    replay=core_replay("C12"),
+    rule=("each evaluation = one position searched with a poll budget large enough for pass 0 (runs where PassCommit{0} "
+          "was not observed are counted, not judged): if the model finds >=1 checkmating move the result must be one "
+          "of them with a mate-in-one score for the mover; every result and every committed pass (also under seeded "
+          "early expiry) that carries a mate-in-one score for the mover must carry a move that checkmates in the model, "
+          "and a mate-in-one score for the side not to move is never acceptable; positions = mating-net / sparse / "
+          "promotion / other random placements with short walks steered towards mates, 16 classic mates and their "
+          "mirrors, corpus; default and positional engines; distinct_nontrivial = distinct positions that have a mate "
+          "in one"),
+    floor=dict(any={"evaluations": 3000, "mate-in-one-positions-judged": 150, "mating-moves:1": 50, "mating-moves:>1": 50,
+                    "mating-capture": 20, "near-miss:check-but-no-mate": 500, "mate-in-one-claims": 150}),
+    watchdog=dict(quick=1200, thorough=10800),
+    assumptions=[MODEL_ASSUMPTION, CHK_ASSUMPTION, HOOK_ASSUMPTION],
+)
+
+PROPS["C13"] = dict(
+    jobs=lambda ctx: core_jobs("C13", ctx),
+    replay=core_replay("C13"),
+    rule=("each evaluation = one pair (position, colour mirror), both searched by a default Engine with empty history "
+          "and the same poll budget; for every depth committed by both (PassCommit events, at most 16) the mirror's "
+          "score must be the negation (Raw(x)<->Raw(-x), WhiteMateIn(n)<->BlackMateIn(n), Min<->Max); positions whose "
+          "side to move has a promotion move at the root are skipped as the property states; best moves are not "
+          "compared; distinct_nontrivial = distinct positions with at least one common depth"),
+    floor=dict(any={"evaluations": 2000, "depth-comparisons": 6000, "score-kind:raw": 2000, "score-kind:mate": 50,
+                    "common-depths:3": 50}),
+    watchdog=dict(quick=1200, thorough=10800),
+    assumptions=[MODEL_ASSUMPTION, CHK_ASSUMPTION, HOOK_ASSUMPTION],
+)
+
+PROPS["C14"] = dict(
+    jobs=lambda ctx: core_jobs("C14", ctx, split=(8, 8)),
+    replay=core_replay("C14"),
+    exhaustive=True,
+    exhaustive_note=("complete over S x S (pairs) and S x S x S (transitivity) for the 87-element score set S (both "
+                     "sentinels, mate distances {0,1,2,3,255,256,32767,32768,65534,65535}+12 seeded, raw "
+                     "{MIN,MIN+1,-1,0,1,MAX-1,MAX,...}+30 seeded) and over all 2 x 65536 mate scores x S; the 2^32 raw "
+                     "values are sampled"),
+    rule=("each evaluation = one ordered pair (a,b) of scores: cmp must equal the comparison of reference keys "
+          "(Min=-inf, BlackMateIn(x)=-2^40+x, Raw(v)=v, WhiteMateIn(x)=2^40-x, Max=+inf), partial_cmp == Some(cmp), "
+          "== iff Equal, antisymmetry, the four operators, max/min; all triples over S for transitivity; "
+          "sort/binary_search of seeded vectors against key order; distinct_nontrivial = distinct pairs over S"),
+    floor=dict(any={"pairs": 7569, "triples": 658503, "mate-distance-sweep-pairs": 11000000, "sorted-vectors": 1000}),
+    watchdog=dict(quick=600, thorough=3600),
+    assumptions=[CHK_ASSUMPTION, "the reference key function written in the harness is the definition of "
+                 "game-theoretic preference"],
+)
